@@ -28,4 +28,10 @@ def main(argv):
 
 
 if __name__ == "__main__":
-    sys.exit(main(sys.argv[1:]))
+    rc = main(sys.argv[1:])
+    sys.stdout.flush()
+    sys.stderr.flush()
+    from mc import framework as _fw
+    if _fw.TORN_DOWN:
+        os._exit(rc or 0)
+    sys.exit(rc)
